@@ -779,6 +779,8 @@ def v_sum(vals):
     for v in vals:
         if is_unknown(v):
             return v
+        if is_rat(v) and (G.same(v, TRUE) or G.same(v, FALSE)):
+            v = F.const(1 if G.same(v, TRUE) else 0)          # a sum of truth values counts them
         tot = tot + v
     return tot
 
@@ -1062,7 +1064,7 @@ def canon_module(name):
 PY_BUILTINS = set(dir(__import__("builtins")))
 HARMLESS_DECORATORS = {"lru_cache", "cache", "wraps", "staticmethod", "classmethod", "property", "njit", "jit"}
 KNOWN_MODULES = {"np", "math", "linalg", "itertools", "copy", "warnings", "sys", "pd", "scipy", "locate", "ytools", "np.linalg", "pandas",
-                 "functools", "operator", "types"}
+                 "functools", "operator", "types", "bisect"}
 
 
 class Interp:
@@ -1676,6 +1678,8 @@ class Interp:
             return list(v.keys)
         if isinstance(v, Table):
             return [mkstr(c) for c in v.cols]
+        if isinstance(v, IndexVal):
+            return [(a, b) for a, b in zip(v.ids, v.dofs)]
         if is_unknown(v):
             raise Unsupported(f"iteration over `{_src(node)}`: {v.why}")
         if generic_ok:
@@ -2259,6 +2263,7 @@ NAME_KW = {
     "linalg.solve": {"overwrite_a", "overwrite_b", "check_finite", "lower"}, "linalg.inv": {"overwrite_a", "check_finite"},
     "linalg.pinv": {"check_finite", "atol", "rtol", "rcond", "cond"}, "np.linalg.pinv": {"rcond", "rtol"},
     "linalg.det": {"overwrite_a", "check_finite"},
+    "np.argsort": {"kind"}, "np.unique": {"return_index", "return_inverse", "return_counts"}, "np.searchsorted": {"side"},
 }
 
 
@@ -3443,6 +3448,133 @@ LIB = {
 }
 
 
+# ---- order-sensitive look-ups on *constant* keys (labels of a finite witness table): touched only through comparison / equality
+def _const_keys(v):
+    if not _arrayish(v):
+        return None
+    a = as_arr(v)
+    cs = [G.const_of(x) if is_rat(x) else None for x in a.flat()]
+    if a.ndim != 1 or any(c is None for c in cs):
+        return None
+    return cs
+
+
+def _bisect(cs, key, right):
+    """the bisection numpy / the bisect module perform (whatever the order of `cs`: on an array that is not ascending the documented
+    precondition is broken and this is the position the search *returns*)"""
+    lo, hi = 0, len(cs)
+    while lo < hi:
+        mid = lo + ((hi - lo) >> 1)
+        if (cs[mid] <= key) if right else (cs[mid] < key):
+            lo = mid + 1
+        else:
+            hi = mid
+    return lo
+
+
+def _searchsorted(pos_side):
+    def f(ip, args, kwargs, node):
+        if len(args) != 2:
+            return NotImplemented
+        side = kwargs.get("side")
+        right = pos_side
+        if side is not None:
+            s_ = str_of(side) if is_rat(side) else None
+            if s_ not in ("left", "right"):
+                return NotImplemented
+            right = s_ == "right"
+        if set(kwargs) - {"side"}:
+            return NotImplemented
+        cs = _const_keys(args[0])
+        if cs is None:
+            return NotImplemented
+        if _arrayish(args[1]):
+            ks = _const_keys(as_arr(args[1]).reshape((-1,)))
+            if ks is None:
+                return NotImplemented
+            return Arr.new([F.const(_bisect(cs, k, right)) for k in ks], as_arr(args[1]).shape)
+        k = G.const_of(args[1]) if is_rat(args[1]) else None
+        if k is None:
+            return NotImplemented
+        return F.const(_bisect(cs, k, right))
+    return f
+
+
+def L_lexsort(ip, args, kwargs, node):
+    if len(args) != 1 or kwargs:
+        return NotImplemented
+    keys = [_const_keys(k) for k in ip.iterate(args[0], node)]
+    if not keys or any(k is None for k in keys) or len({len(k) for k in keys}) != 1:
+        return NotImplemented
+    n = len(keys[0])
+    order = sorted(range(n), key=lambda r: tuple(k[r] for k in reversed(keys)) + (r,))      # the *last* key is the primary one
+    return as_arr(tuple(F.const(r) for r in order))
+
+
+def L_unique(ip, args, kwargs, node):
+    flags = {}
+    for k in ("return_index", "return_inverse", "return_counts"):
+        v = kwargs.get(k)
+        b = False if v is None else G.fold_bool(v)
+        if b is None:
+            return NotImplemented
+        flags[k] = bool(b)
+    if len(args) != 1 or set(kwargs) - set(flags):
+        return NotImplemented
+    cs = _const_keys(args[0])
+    if cs is None:
+        return NotImplemented
+    vals = sorted(set(cs))
+    out = [as_arr(tuple(F.const(c) for c in vals))]
+    if flags["return_index"]:
+        out.append(as_arr(tuple(F.const(cs.index(c)) for c in vals)))
+    if flags["return_inverse"]:
+        out.append(as_arr(tuple(F.const(vals.index(c)) for c in cs)))
+    if flags["return_counts"]:
+        out.append(as_arr(tuple(F.const(cs.count(c)) for c in vals)))
+    return out[0] if len(out) == 1 else tuple(out)
+
+
+def L_argsort(ip, args, kwargs, node):
+    if len(args) != 1 or set(kwargs) - {"kind", "axis"}:
+        return NotImplemented
+    ax = kwargs.get("axis")
+    if ax is not None and G.int_of(ax) not in (0, -1):
+        return NotImplemented
+    cs = _const_keys(args[0])
+    if cs is None:
+        return NotImplemented
+    if len(set(cs)) != len(cs) and "kind" in kwargs and str_of(kwargs["kind"]) not in ("stable", "mergesort"):
+        return NotImplemented          # the order of equal keys is not defined
+    return as_arr(tuple(F.const(k) for k in sorted(range(len(cs)), key=lambda k: (cs[k], k))))
+
+
+def L_argextreme(which):
+    def f(ip, args, kwargs, node):
+        if len(args) != 1 or kwargs or not _arrayish(args[0]):
+            return NotImplemented
+        a = as_arr(args[0])
+        if a.ndim != 1 or a.size == 0:
+            return NotImplemented
+        cs = []
+        for x in a.flat():
+            c = G.const_of(x) if is_rat(x) else None
+            if c is None:
+                b = G.fold_bool(x) if is_rat(x) else None
+                if b is None:
+                    return NotImplemented
+                c = Fraction(int(bool(b)))
+            cs.append(c)
+        best = max(cs) if which == "max" else min(cs)
+        return F.const(cs.index(best))
+    return f
+
+
+LIB.update({"np.searchsorted": _searchsorted(False), "bisect.bisect_left": _searchsorted(False), "bisect.bisect_right": _searchsorted(True),
+            "bisect.bisect": _searchsorted(True), "np.lexsort": L_lexsort, "np.unique": L_unique, "np.argsort": L_argsort,
+            "np.argmax": L_argextreme("max"), "np.argmin": L_argextreme("min")})
+
+
 def _over_stack(f2d, nmat):
     """numpy's linear-algebra functions act on the last two axes of a stack of matrices: apply the 2-d model to every matrix of the stack
     (`nmat`: how many leading arguments are matrices)"""
@@ -3678,12 +3810,29 @@ def M_get_loc(ip, obj, args, kwargs, node):
     return F.const(hits[0])
 
 
+def M_index_tolist(ip, obj, args, kwargs, node):
+    if args or kwargs:
+        return NotImplemented
+    return LVal([(a, b) for a, b in zip(obj.ids, obj.dofs)])
+
+
 def M_tvalues(ip, obj, args, kwargs, node):
     return obj.data
 
 
 def M_tcopy(ip, obj, args, kwargs, node):
     return Table(obj.data.copy(), obj.ids, obj.dofs, obj.cols)
+
+
+def M_reset_index(ip, obj, args, kwargs, node):
+    """table.reset_index(): the (id, dof) index becomes the two leading columns; the frame is represented by its `.values` (what the anchored
+    code takes next: `.values` / `.to_numpy()` of an array are the identity)"""
+    if args or kwargs:
+        return NotImplemented
+    n = len(obj.ids)
+    d = obj.data.nested() if obj.data.size else tuple(() for _ in range(n))
+    vals = [x for k in range(n) for x in (obj.ids[k], obj.dofs[k]) + tuple(d[k])]
+    return Arr.new(vals, (n, 2 + len(obj.cols)))
 
 
 def M_startswith(ip, obj, args, kwargs, node):
@@ -3697,8 +3846,8 @@ METHODS = {
     LVal: {"append": M_append, "extend": M_extend, "insert": M_insert, "pop": M_pop, "copy": M_lcopy, "reverse": M_reverse, "index": M_index, "sort": M_sort},
     tuple: {"index": M_index},
     DVal: {"get": M_dget, "items": M_ditems, "keys": M_dkeys, "values": M_dvalues, "setdefault": M_dsetdefault, "update": M_dupdate},
-    IndexVal: {"get_level_values": M_level, "get_loc": M_get_loc},
-    Table: {"to_numpy": M_tvalues, "copy": M_tcopy, "__array__": M_tvalues},
+    IndexVal: {"get_level_values": M_level, "get_loc": M_get_loc, "tolist": M_index_tolist, "to_list": M_index_tolist},
+    Table: {"to_numpy": M_tvalues, "copy": M_tcopy, "__array__": M_tvalues, "reset_index": M_reset_index},
 }
 
 
